@@ -467,7 +467,11 @@ def run_tool_sigint(W, argv, cwd, tmpdir, fakebin, step):
     code = ("import sys\nfrom bandit.cli import baseline\n"
             "try:\n    baseline.main()\nexcept SystemExit:\n    raise\n"
             "except BaseException as e:\n    sys.stderr.write('ESCAPED:' + type(e).__name__ + '\\n'); sys.exit(99)\n")
-    p = subprocess.Popen(["/venv/bin/python", "-c", code] + list(argv), cwd=cwd, env=env, stdout=subprocess.PIPE, stderr=subprocess.PIPE, text=True)
+    # SIGINT back to its default disposition in the child: a check started in the background of a non-interactive shell (`cmd &`, nohup) inherits SIGINT
+    # *ignored*, CPython then installs no KeyboardInterrupt handler, the signal is lost and the tool simply finishes (seen once as a correspondence break
+    # "impl exit 0 / model KeyboardInterrupt" when the quick tier was run with `&`)
+    p = subprocess.Popen(["/venv/bin/python", "-c", code] + list(argv), cwd=cwd, env=env, stdout=subprocess.PIPE, stderr=subprocess.PIPE, text=True,
+                         preexec_fn=lambda: signal.signal(signal.SIGINT, signal.SIG_DFL))
     if step is not None:
         ready = os.path.join(fakebin, f"ready{step}")
         t0 = time.time()
